@@ -105,6 +105,23 @@ def ci_reference(mol, mc, coords, ci):
     return np.array(vals)
 
 
+def spin_project(ci, ncas, nelecas, ss):
+    """project a CI vector onto the S^2 = ss eigenspace exactly (Loewdin projector built from PySCF's contract_ss): iterative solvers
+    leave contaminations of 1e-7 in amplitude, which the LOCAL S^2 = (S^2 Psi)/Psi magnifies wherever Psi is small"""
+    from pyscf.fci import spin_op
+    na, nb = nelecas
+    n = na + nb
+    sz = abs(na - nb) / 2.0
+    out = ci.copy()
+    sp = sz
+    while sp <= n / 2.0 + 1e-9:
+        e = sp * (sp + 1)
+        if abs(e - ss) > 1e-9:
+            out = (spin_op.contract_ss(out, ncas, nelecas) - e * out) / (ss - e)
+        sp += 1.0
+    return out / np.linalg.norm(out)
+
+
 def check_ci(ck):
     from pyscf import gto, scf, mcscf
     from pyqmc.wf.slater import Slater
@@ -121,11 +138,13 @@ def check_ci(ck):
             mc = mcscf.CASCI(mf, kw["ncas"], kw["nelecas"])
             mc.verbose = 0
             mc.fix_spin_(ss=ss)
+            mc.fcisolver.conv_tol = 1e-13
             if root:
                 mc.fcisolver.nroots = root + 1
             mc.kernel()
             if root:
                 mc.ci = mc.ci[root]
+            mc.ci = spin_project(np.asarray(mc.ci), mc.ncas, mc.nelecas, ss)
             return mc
         ok, mc = ck.guarded(build, "ci", S_CI, {"system": name})
         if not ok:
@@ -147,6 +166,13 @@ def check_ci(ck):
             ck.violation("wave_function_differs_from_pyscf_ci_expansion", S_CI, inp, expected="sum_ab c_ab det_a(up) det_b(down) with PySCF's strings and coefficients", got=[complex(x).__repr__() for x in ratio],
                          oracle="pyscf.fci.cistring strings, mc.ci, mol.eval_gto x mc.mo_coeff")
         # spin eigenfunction: local S^2 = S(S+1) everywhere
+        # the statement is about spin-ADAPTED vectors: PySCF's own <S^2> of this CI vector must be S(S+1) (a penalty-based solver can
+        # return slightly contaminated excited roots; local S^2 = sum/Psi magnifies that where Psi is small)
+        from pyscf.fci import spin_op
+        ss_ci = float(spin_op.spin_square(np.asarray(mc.ci), mc.ncas, mc.nelecas)[0])
+        if abs(ss_ci - ss) > 1e-10:
+            ck.count("CI vector not spin-adapted to 1e-10 according to PySCF's spin_square (local S^2 not asserted)")
+            continue
         wf = Slater(molx, mf, mc=mc, tol=-1)
         wf.recompute(cfg)
         ok, s2 = ck.guarded(lambda: np.asarray(S2Accumulator(molx.nelec)(cfg, wf)["S2"]), "ci", S_S2, inp)
